@@ -166,6 +166,15 @@ func zoneCell(s string) any {
 	return bstr(loc.String())
 }
 
+// zoneEntry: what time.LoadLocation answers for an agency_timezone cell, with the zone's table for the model
+func zoneEntry(c string) map[string]any {
+	m := map[string]any{"tz": bstr(c), "resolved": zoneCell(c)}
+	if loc, err := time.LoadLocation(c); err == nil {
+		m["table"] = zoneTabOf(loc).json()
+	}
+	return m
+}
+
 // envFor scans every cell of every member (with the library's own BOM-aware reader, leniently).
 func envFor(lists ...[]member) (floats []any, zones []any) {
 	seen := map[string]bool{}
@@ -188,7 +197,7 @@ func envFor(lists ...[]member) (floats []any, zones []any) {
 						seen[c] = true
 						floats = append(floats, map[string]any{"cell": bstr(c), "bits": floatCell(c)})
 						if m.name == "agency.txt" {
-							zones = append(zones, map[string]any{"tz": bstr(c), "resolved": zoneCell(c)})
+							zones = append(zones, zoneEntry(c))
 						}
 					}
 				}
@@ -199,7 +208,7 @@ func envFor(lists ...[]member) (floats []any, zones []any) {
 		}
 	}
 	if !seen[""] {
-		zones = append(zones, map[string]any{"tz": "", "resolved": zoneCell("")})
+		zones = append(zones, zoneEntry(""))
 	}
 	return
 }
@@ -340,18 +349,30 @@ func canonStatic(s *gtfs.Static) (map[string]any, *staticCanon) {
 		transfers = append(transfers, m)
 	}
 	services := []any{}
+	// the instant of every date is printed next to its civil day number: the model predicts it from the zone's table
+	var zt *zoneTab
+	if len(s.Services) > 0 {
+		zt = zoneTabOf(s.Services[0].StartDate.Location())
+	}
 	for i, sv := range s.Services {
 		where := fmt.Sprintf("service %d (%s)", i, sv.Id)
 		added, removed := []any{}, []any{}
+		addedAt, removedAt := []any{}, []any{}
 		for _, d := range sv.AddedDates {
-			added = append(added, c.date(d, zone, where+" added"))
+			day := c.date(d, zone, where+" added")
+			added = append(added, day)
+			addedAt = append(addedAt, zt.dateInstant(d, day))
 		}
 		for _, d := range sv.RemovedDates {
-			removed = append(removed, c.date(d, zone, where+" removed"))
+			day := c.date(d, zone, where+" removed")
+			removed = append(removed, day)
+			removedAt = append(removedAt, zt.dateInstant(d, day))
 		}
+		start, end := c.date(sv.StartDate, zone, where+" start"), c.date(sv.EndDate, zone, where+" end")
 		services = append(services, map[string]any{"id": bstr(sv.Id),
 			"days":      []any{sv.Monday, sv.Tuesday, sv.Wednesday, sv.Thursday, sv.Friday, sv.Saturday, sv.Sunday},
-			"startDate": c.date(sv.StartDate, zone, where+" start"), "endDate": c.date(sv.EndDate, zone, where+" end"), "added": added, "removed": removed})
+			"startDate": start, "endDate": end, "added": added, "removed": removed,
+			"startAt": zt.dateInstant(sv.StartDate, start), "endAt": zt.dateInstant(sv.EndDate, end), "addedAt": addedAt, "removedAt": removedAt})
 	}
 	shapes := []any{}
 	for _, sh := range s.Shapes {
